@@ -58,53 +58,53 @@ enum OpK {
 }
 use OpK::*;
 
-/// columns: core, bulk, iter, cap, all  (`fuse` uses the `all` column)
+/// columns: core, bulk, iter, cap, all, fuse  (`fuse` = `all` without serde / deser)
 #[rustfmt::skip]
-const WEIGHTS: &[(OpK, [u32; 5])] = &[
-    //                 core bulk iter  cap  all
-    (Push,           [ 300, 100, 100, 150, 120]),
-    (PushInc,        [  50,  15,  10,  15,  20]),
-    (PushDec,        [  50,  15,  10,  15,  20]),
-    (Chg,            [ 100,  30,  20,  30,  40]),
-    (ChgBy,          [  40,  10,  10,  10,  15]),
-    (ChgAdd,         [  40,  10,  10,  10,  15]),
-    (Remove,         [  80,  25,  20,  25,  30]),
-    (Peek,           [  40,  10,  10,  10,  12]),
-    (PeekMut,        [  30,  10,  10,  10,  10]),
-    (Pop,            [ 100,  30,  25,  30,  40]),
-    (PopIf,          [  70,  20,  10,  15,  25]),
-    (Get,            [  25,   8,   5,   8,   8]),
-    (GetPrio,        [  25,   8,   5,   8,   8]),
-    (GetMut,         [  25,   8,   5,   8,   8]),
-    (Len,            [  15,   5,   5,   8,   5]),
-    (IsEmpty,        [  10,   3,   3,   5,   3]),
-    (Clear,          [   3,   2,   1,   2,   2]),
-    (New,            [   2,   4,   1,   3,   3]),
-    (FromVec,        [   0,  25,   2,   0,  10]),
-    (FromIter,       [   0,  25,   2,   0,  10]),
-    (Extend,         [   0,  40,   2,   0,  15]),
-    (Append,         [   0,  20,   0,   0,   8]),
-    (Convert,        [   0,  12,   1,   0,   5]),
-    (Clone,          [   0,  12,   1,   0,   5]),
-    (Eq,             [   0,  12,   0,   0,   5]),
-    (Serde,          [   0,  12,   0,   0,   5]),
-    (Deser,          [   0,  15,   0,   0,   6]),
-    (Retain,         [   0,  15,   0,   0,   6]),
-    (RetainMut,      [   0,  15,   0,   0,   6]),
-    (SortedVec,      [   0,  12,   0,   0,   5]),
-    (IntoVec,        [   0,   8,   0,   0,   3]),
-    (IterMut,        [   0,   0,  60,   0,  15]),
-    (Iter,           [   0,   0,  30,   0,   8]),
-    (IntoIter,       [   0,   0,  25,   0,   6]),
-    (Drain,          [   0,   0,  15,   0,   4]),
-    (SortedIter,     [   0,   0,  30,   0,   8]),
-    (WithCap,        [   0,   0,   0,  10,   2]),
-    (Reserve,        [   0,   0,   0,  25,   4]),
-    (ReserveX,       [   0,   0,   0,  20,   3]),
-    (TryReserve,     [   0,   0,   0,  25,   4]),
-    (TryReserveX,    [   0,   0,   0,  20,   3]),
-    (Shrink,         [   0,   0,   0,  20,   3]),
-    (Capacity,       [   0,   0,   0,  20,   3]),
+const WEIGHTS: &[(OpK, [u32; 6])] = &[
+    //                 core  bulk  iter   cap   all  fuse
+    (Push,           [ 300,  100,  100,  150,  120,  120]),
+    (PushInc,        [  50,   15,   10,   15,   20,   20]),
+    (PushDec,        [  50,   15,   10,   15,   20,   20]),
+    (Chg,            [ 100,   30,   20,   30,   40,   40]),
+    (ChgBy,          [  40,   10,   10,   10,   15,   15]),
+    (ChgAdd,         [  40,   10,   10,   10,   15,   15]),
+    (Remove,         [  80,   25,   20,   25,   30,   30]),
+    (Peek,           [  40,   10,   10,   10,   12,   12]),
+    (PeekMut,        [  30,   10,   10,   10,   10,   10]),
+    (Pop,            [ 100,   30,   25,   30,   40,   40]),
+    (PopIf,          [  70,   20,   10,   15,   25,   25]),
+    (Get,            [  25,    8,    5,    8,    8,    8]),
+    (GetPrio,        [  25,    8,    5,    8,    8,    8]),
+    (GetMut,         [  25,    8,    5,    8,    8,    8]),
+    (Len,            [  15,    5,    5,    8,    5,    5]),
+    (IsEmpty,        [  10,    3,    3,    5,    3,    3]),
+    (Clear,          [   3,    2,    1,    2,    2,    2]),
+    (New,            [   2,    4,    1,    3,    3,    3]),
+    (FromVec,        [   0,   25,    2,    0,   10,   10]),
+    (FromIter,       [   0,   25,    2,    0,   10,   10]),
+    (Extend,         [   0,   40,    2,    0,   15,   15]),
+    (Append,         [   0,   20,    0,    0,    8,    8]),
+    (Convert,        [   0,   12,    1,    0,    5,    5]),
+    (Clone,          [   0,   12,    1,    0,    5,    5]),
+    (Eq,             [   0,   12,    0,    0,    5,    5]),
+    (Serde,          [   0,   12,    0,    0,    5,    0]),
+    (Deser,          [   0,   15,    0,    0,    6,    0]),
+    (Retain,         [   0,   15,    0,    0,    6,    6]),
+    (RetainMut,      [   0,   15,    0,    0,    6,    6]),
+    (SortedVec,      [   0,   12,    0,    0,    5,    5]),
+    (IntoVec,        [   0,    8,    0,    0,    3,    3]),
+    (IterMut,        [   0,    0,   60,    0,   15,   15]),
+    (Iter,           [   0,    0,   30,    0,    8,    8]),
+    (IntoIter,       [   0,    0,   25,    0,    6,    6]),
+    (Drain,          [   0,    0,   15,    0,    4,    4]),
+    (SortedIter,     [   0,    0,   30,    0,    8,    8]),
+    (WithCap,        [   0,    0,    0,   10,    2,    2]),
+    (Reserve,        [   0,    0,    0,   25,    4,    4]),
+    (ReserveX,       [   0,    0,    0,   20,    3,    3]),
+    (TryReserve,     [   0,    0,    0,   25,    4,    4]),
+    (TryReserveX,    [   0,    0,    0,   20,    3,    3]),
+    (Shrink,         [   0,    0,    0,   20,    3,    3]),
+    (Capacity,       [   0,    0,    0,   20,    3,    3]),
 ];
 
 /// probability (percent) that an op of the `fuse` profile is prefixed `fuse k`
@@ -123,7 +123,7 @@ fn profile_column(name: &str) -> Option<(usize, bool)> {
         "iter" => (2, false),
         "cap" => (3, false),
         "all" => (4, false),
-        "fuse" => (4, true),
+        "fuse" => (5, true),
         _ => return None,
     })
 }
@@ -1028,6 +1028,9 @@ fn gen_random(args: &[String]) -> Result<(), String> {
         return Err("--hashmode is 0..3".into());
     }
     let disputed = f.get("disputed", 0u32)? != 0;
+    // the per-history PRNG depends on (seed, id) only, and --hashmode is only
+    // written into the H header: accepted for compatibility, nothing to switch
+    let _fixseed = f.get("fixseed", 1u32)?;
     let (si, sn) = f.shard()?;
     let outp: String = f.get("out", "-".to_string())?;
     f.done()?;
